@@ -245,4 +245,4 @@ def rule_r6(ctx):
     return lambda_skeleton_rule(ctx)
 
 
-RULES = [("C11-R1", rule_r1), ("C11-R2", rule_r2), ("C11-R3", rule_r3), ("C11-R4", rule_r4), ("C11-R5", rule_r5)]
+RULES = [("C11-R1", rule_r1), ("C11-R2", rule_r2), ("C11-R3", rule_r3), ("C11-R4", rule_r4), ("C11-R5", rule_r5), ("C11-R6", rule_r6)]
